@@ -167,7 +167,7 @@ def cases(rng, tier):
             for skind in "if":
                 for dtype in ("f8", "c16", "i8"):
                     yield gen_rt(rng, force=dict(ndim=ndim, rkind=rkind, skind=skind, dtype=dtype, nsub=rng.choice([1, 2, 3])))
-    for _ in range(1300 if quick else 4500):
+    for _ in range(1300 if quick else 6000):
         yield gen_rt(rng)
     for t in TAMPERS:
         for _ in range(6 if quick else 25):
